@@ -19,6 +19,10 @@ fixed(["C17"], "wait-returns-not-the-first-match:last-of-batch", "fix: waitforev
       "of two matching events processed in one batch waitforevent returned the last one")
 fixed(["C19"], "output-out-of-order:tty", "fix: TTY channel writes messages in the order",
       "TTY writes of messages routed back-to-back ran concurrently in the thread pool and reached stdout in completion order")
+fixed(["C12", "C07"], "later-valid-request-unanswered:*:number-overflow-1e999|number-nan-as-text|number-inf-as-text", "fix: number elements reject inf and nan",
+      "a client could store inf/nan in a number element (1e999, or 'nan' sent as text); every later definition/update of the vector then raised, closing the connection of whoever asked")
+fixed(["C11", "C12"], "valid-message-not-recovered-after-junk (messages enclosed by an invalid element)", "fix: giving up an invalid element must not discard",
+      "first version of the framer fix dropped a complete-but-invalid element whole, including valid messages it enclosed")
 known("C08", "payload-longer-than-threshold-on-threshold-enabled-link",
       "a BLOB message longer than the 2048-character junk threshold is discarded as junk by a framing buffer whose threshold is enabled "
       "(every client->driver upload on the server side; driver->client on a connection that asked for enableBLOB Also without for_blobs) "
